@@ -326,6 +326,109 @@ func sqlCmd(args []string) {
 					st.dead[h] = true
 				}
 			}
+		case "SQLPREPSLEEP":
+			// a prepared statement executed, left alone for a while, executed again
+			id, h := t.next(), t.next()
+			text := t.str()
+			ms := t.int()
+			db := st.dbs[h]
+			var stmt *sql.Stmt
+			run := func() string {
+				return withWatchdog(wd, func() string {
+					rows, err := stmt.Query()
+					if err != nil {
+						return "ERR"
+					}
+					return fmtRows(rows)
+				})
+			}
+			perr := withWatchdog(wd, func() string {
+				var err error
+				stmt, err = db.Prepare(text)
+				if err != nil {
+					return "ERR"
+				}
+				return ""
+			})
+			if perr != "" {
+				pr("SQL %s.0 %s\nSQL %s.1 %s\n", id, perr, id, perr)
+				continue
+			}
+			pr("SQL %s.0 %s\n", id, run())
+			time.Sleep(time.Duration(ms) * time.Millisecond)
+			pr("SQL %s.1 %s\n", id, run())
+			stmt.Close()
+		case "SQLCONCA":
+			// n goroutines run ONE query text with DIFFERENT arguments at the same time (direct and
+			// prepared): every answer must be the one the same call gives when nothing else runs
+			id, h := t.next(), t.next()
+			n, iters := t.int(), t.int()
+			text := t.str()
+			argsets := make([][]interface{}, t.int())
+			for k := range argsets {
+				argsets[k] = t.sqlArgs()
+			}
+			db := st.dbs[h]
+			want := make([]string, len(argsets))
+			for k, a := range argsets {
+				a := a
+				want[k] = withWatchdog(wd, func() string {
+					rows, err := db.Query(text, a...)
+					if err != nil {
+						return "ERR"
+					}
+					return fmtRows(rows)
+				})
+			}
+			var wg sync.WaitGroup
+			var mu sync.Mutex
+			mism, first := 0, ""
+			for g := 0; g < n; g++ {
+				wg.Add(1)
+				go func(g int) {
+					defer wg.Done()
+					var stmt *sql.Stmt
+					if g%2 == 1 {
+						stmt, _ = db.Prepare(text)
+					}
+					for it := 0; it < iters; it++ {
+						k := (g + it) % len(argsets)
+						got := withWatchdog(wd, func() string {
+							var rows *sql.Rows
+							var err error
+							if stmt != nil {
+								rows, err = stmt.Query(argsets[k]...)
+							} else {
+								rows, err = db.Query(text, argsets[k]...)
+							}
+							if err != nil {
+								return "ERR"
+							}
+							return fmtRows(rows)
+						})
+						if got != want[k] {
+							mu.Lock()
+							mism++
+							if first == "" {
+								first = fmt.Sprintf("argument set %d: got %s, alone it gives %s", k, got, want[k])
+							}
+							mu.Unlock()
+							if got == "HANG" || got == "PANIC" {
+								return
+							}
+						}
+					}
+					if stmt != nil {
+						stmt.Close()
+					}
+				}(g)
+			}
+			wg.Wait()
+			if mism == 0 {
+				pr("CONCA %s OK %d\n", id, n*iters)
+			} else {
+				pr("CONCA %s MISMATCH %d %s\n", id, mism, first)
+			}
 		case "SQLTX2":
 			// two transactions open at the same time on one handle, each queried, then both committed
 			id, h := t.next(), t.next()
